@@ -1,0 +1,131 @@
+//! Verification hooks (compiled only with `--cfg nervusdb_verif`).
+//!
+//! A process-global observer receives one call per I/O step, schedule point,
+//! lock acquisition, page ownership event and external-id allocation. With no
+//! observer installed every hook is a no-op.
+
+use std::fs::File;
+use std::path::Path;
+use std::sync::{Arc, RwLock};
+
+pub trait Observer: Send + Sync {
+    /// Called before a file mutation; an `Err` is returned to the caller as
+    /// the result of the I/O call (fault injection).
+    fn io_before(
+        &self,
+        _kind: &'static str,
+        _site: &'static str,
+        _file: Option<&File>,
+        _path: Option<&Path>,
+    ) -> std::io::Result<()> {
+        Ok(())
+    }
+    /// Called after the file mutation completed successfully.
+    fn io_after(
+        &self,
+        _kind: &'static str,
+        _site: &'static str,
+        _file: Option<&File>,
+        _path: Option<&Path>,
+    ) {
+    }
+    /// Schedule point between two critical sections.
+    fn sched(&self, _point: &'static str) {}
+    /// Lock protocol: phase 0 = about to acquire, 1 = acquired, 2 = released.
+    fn lock(&self, _name: &'static str, _mode: &'static str, _phase: u8) {}
+    /// Page ownership: `op` is "alloc", "write" or "free".
+    fn page(&self, _op: &'static str, _page: u64, _structure: &'static str) {}
+    /// External id allocation; returns the id to use.
+    fn ext_id(&self, _counter: u64, computed: u64) -> u64 {
+        computed
+    }
+}
+
+static OBSERVER: RwLock<Option<Arc<dyn Observer>>> = RwLock::new(None);
+
+pub fn install(observer: Option<Arc<dyn Observer>>) {
+    *OBSERVER.write().unwrap() = observer;
+}
+
+fn current() -> Option<Arc<dyn Observer>> {
+    OBSERVER.read().unwrap().clone()
+}
+
+pub fn io_before(
+    kind: &'static str,
+    site: &'static str,
+    file: Option<&File>,
+    path: Option<&Path>,
+) -> std::io::Result<()> {
+    match current() {
+        Some(o) => o.io_before(kind, site, file, path),
+        None => Ok(()),
+    }
+}
+
+pub fn io_after(kind: &'static str, site: &'static str, file: Option<&File>, path: Option<&Path>) {
+    if let Some(o) = current() {
+        o.io_after(kind, site, file, path);
+    }
+}
+
+pub fn sched(point: &'static str) {
+    if let Some(o) = current() {
+        o.sched(point);
+    }
+}
+
+pub fn lock(name: &'static str, mode: &'static str, phase: u8) {
+    if let Some(o) = current() {
+        o.lock(name, mode, phase);
+    }
+}
+
+/// Scope token: reports the release of a lock when dropped.
+pub struct LockToken {
+    name: &'static str,
+    mode: &'static str,
+}
+
+impl Drop for LockToken {
+    fn drop(&mut self) {
+        lock(self.name, self.mode, 2);
+    }
+}
+
+pub fn lock_acquired(name: &'static str, mode: &'static str) -> LockToken {
+    lock(name, mode, 1);
+    LockToken { name, mode }
+}
+
+thread_local! {
+    static STRUCTURE: std::cell::Cell<&'static str> = const { std::cell::Cell::new("unknown") };
+}
+
+/// Scope token: restores the previous "current structure" tag when dropped.
+pub struct StructureScope(&'static str);
+
+impl Drop for StructureScope {
+    fn drop(&mut self) {
+        STRUCTURE.with(|s| s.set(self.0));
+    }
+}
+
+pub fn structure(name: &'static str) -> StructureScope {
+    let prev = STRUCTURE.with(|s| s.replace(name));
+    StructureScope(prev)
+}
+
+pub fn page(op: &'static str, page: u64) {
+    if let Some(o) = current() {
+        let s = STRUCTURE.with(|s| s.get());
+        o.page(op, page, s);
+    }
+}
+
+pub fn ext_id(counter: u64, computed: u64) -> u64 {
+    match current() {
+        Some(o) => o.ext_id(counter, computed),
+        None => computed,
+    }
+}
